@@ -282,7 +282,7 @@ def _build_parser():
     routes_parser.add_argument(
         "--crud",
         help="What of (C)reate, (R)ead, (U)pdate, (D)elete to generate",
-        choices=("CRUD", "CR", "C", "R", "U", "D", "CR", "CU", "CD", "CRD"),
+        choices=("CRUD", "CR", "C", "R", "U", "D", "RD", "CU", "CD", "CRD"),
         required=True,
     )
     routes_parser.add_argument(
